@@ -352,6 +352,17 @@ def rand_spec(rng, ring=None, simple=None, n=None, names=None, reassign=True, ki
             g = rng.choice(names)
             g = swapcase(g) if rng.random() < 0.4 else g        # assigning to the inverse letter re-assigns both
             hist.append({"g": g, "m": enc(gen_matrix(rng, n, ring, kind)), "inv": True})
+    # exact special values: the identity, a generator equal to (the inverse of) another one
+    if rng.random() < 0.15 and hist:
+        h = rng.choice(hist)
+        r = rng.random()
+        one = CF(1) if ring == "C" else F(1)
+        if r < 0.4 or len(hist) == 1:
+            h["m"] = enc([[one * int(i == j) for j in range(n)] for i in range(n)])
+        else:
+            o = rng.choice([x for x in hist if x is not h])
+            M = dec(o["m"])
+            h["m"] = enc(finv(M) if r < 0.8 else M)
     rng.shuffle(hist)
     spec = {"ring": ring, "n": n, "simple": simple, "hist": hist, "relations": [],
             "rel_mode": rng.choice(["ctor", "append", "append"])}
